@@ -565,6 +565,16 @@ theorem mapping_repaired_injective (R P A : List (List Nat)) (o : MapOut)
     (h : postprocessRxn false true R P A = .ok o) : GoodMaps R P A o :=
   postprocess_spec R P A o h
 
+/-- **mapping_keeps_unique.** Atom level: a reactant / product atom whose written map number is positive and does not
+    occur earlier in its role keeps exactly that number (repair touches only unmapped atoms and repeated numbers). -/
+theorem mapping_keeps_unique (R P A : List (List Nat)) (o : MapOut)
+    (h : postprocessRxn false true R P A = .ok o) :
+    (∀ i (hi : i < R.flatten.length), R.flatten[i] ≠ 0 → R.flatten[i] ∉ R.flatten.take i →
+      o.reactants.flatten[i]? = some R.flatten[i]) ∧
+    (∀ i (hi : i < P.flatten.length), P.flatten[i] ≠ 0 → P.flatten[i] ∉ P.flatten.take i →
+      o.products.flatten[i]? = some P.flatten[i]) :=
+  postprocess_keeps R P A o h
+
 /-- **mapping_remap_consistent.** `remap=True` returns the result of `remap=False` renumbered by ONE map `g` that is
     injective on all numbers in use — the same `g` for reactants, products and reagents (so atom pairing between the
     sides, hence the condensed graph, is preserved: part 5) — and the result is again injective per role with reagents
